@@ -65,6 +65,19 @@ def check_cosmetic(case, rec, distinct=False):
             what = 'attributes'
         rec.fail('not-cosmetic:%s:%s' % (what, syntax if syntax == 'xsl' else 'any'),
                  'abbr %r syntax %s\n A=%r\n B=%r\n first difference at token %d: %r vs %r\n outA=%r\n outB=%r' % (text, syntax, A, B, k, da, db, core.short(outA, 300), core.short(outB, 300)))
+    # the self-closing style in force is the REQUESTED one (the option where given, else the syntax default): it changes only the mark before `>`,
+    # and it is that style's mark that is printed
+    for o, out in ((A, outA), (B, outB)):
+        if syntax == 'jsx':
+            break
+        style = o.get('output.selfClosingStyle', 'xml' if syntax in ('xml', 'xsl') else 'html')
+        for t in L.lex(out):
+            if t[0] == 'tag' and t[3]:
+                raw = out[t[4]:t[5]]
+                ok = {'html': False, 'xhtml': raw.endswith(' />'), 'xml': raw.endswith('/>') and not raw.endswith(' />')}[style]
+                if not ok:
+                    rec.fail('self-closing-style-not-the-requested-one', 'abbr %r syntax %s options %r: tag %r printed under style %r\n output %r' % (text, syntax, o, raw, style, core.short(out, 300)))
+                    break
     for name, o, out in (('A', A, outA), ('B', B, outB)):
         if o.get('output.format', True) and o.get('output.formatSkip', ['html']) == [] and o.get('output.selfClosingStyle', 'xml' if syntax in ('xml', 'xsl') else 'html') in ('xhtml', 'xml'):
             check_indent(text, syntax, o, out, rec, ':multiline-text-before-children' if multiline_text_before_children(script) else '')
